@@ -135,6 +135,11 @@ def run(ctx):
     rep.rule("C08.R10", "dependence monotonicity (K13) over every primal/derivative pair of K5: a stated derivative reads no datum its primal does not read", 30)
     from .. import depmono as _dm
     _dm.check_k5_pairs(ctx, "C08.R10", ['TwoPointInteraction', 'Revolute', 'KelvinVoigtElement', 'Spring', 'MaxwellElement', 'PDcontroller', 'PIDcontroller', 'Force', 'B_Force', 'Moment', 'B_Moment'])
+    rep.rule("C08.R11", "memoised helpers of interactions / force laws / actuators (none on the pinned tree) key on every argument and, for a cache shared by all instances, on the instance", 0)
+    from . import c26 as _c26
+    _sites = [s_ for s_ in _c26.find_sites(ctx) if s_.rel.startswith(("cardillo/interactions/", "cardillo/force_laws/", "cardillo/actuators/", "cardillo/forces/"))]
+    _c26.r1_keys(ctx, _sites, rule="C08.R11")
+    rep.ok("C08.R11", "cardillo/interactions + force_laws + actuators + forces", f"{len(_sites)} memoised methods found", trivial=True)
     rep.rule("C08.R1", "chain-rule coverage of force-element / actuator derivatives (K5)", 40)
     rep.rule("C08.R2", "product rule in actuator Jacobians", 2)
     rep.rule("C08.R3", "subsystem protocol (scalar interface and kinematic calls)", 25)
@@ -292,6 +297,12 @@ MUTANTS += [
 MUTANTS += [
     dict(id="c08-seed", canary=True, what="[seeded by sub-agent] Revolute.l_q drops the normalisation 1 / (x**2 + y**2)", file=REV,
          old="        return (x * y_q - y * x_q) / (x**2 + y**2)", new="        return x * y_q - y * x_q", expect="C08.R9"),
+]
+TPI_ = "cardillo/interactions/two_point_interaction.py"
+MUTANTS += [
+    dict(id="c08-r11-seed", canary=True, what="[seeded by sub-agent] TwoPointInteraction._n_q memoised with cachetools.cached: one cache for all interactions, key without the instance", file=TPI_,
+         edits=[(TPI_, "import numpy as np\n", "import numpy as np\nfrom cachetools import cached, LRUCache\nfrom cachetools.keys import hashkey\n"),
+                (TPI_, "    def _n_q(self, t, q):\n", "    @cached(LRUCache(maxsize=1), key=lambda self, t, q: hashkey(t, *q))\n    def _n_q(self, t, q):\n")], expect="C08.R11"),
 ]
 NEUTRAL = [
     dict(id="c08-n-r8", canary=True, what="MaxwellElement.h_q: damper column written as a plain assignment", file=MX,
